@@ -144,7 +144,7 @@ class EPpiston(ExactSolver):
                 e = self.e2
                 rho = self.rho2
                 sdev = self.sdev_y
-            elif x > wv_pl_x and x < wv_el_x:
+            elif x < wv_el_x:
                 vel = self.vel_y
                 p = self.p_y
                 e = self.e_y
